@@ -38,6 +38,11 @@ XML_NS = 'http://www.w3.org/XML/1998/namespace'
 # 'r' -> urn:pp: a URI of which urn:p is a proper string prefix (only generated with tree_specs(prefix_uris=True))
 PREFIX_URI = {'': 'urn:d', 'p': 'urn:p', 'q': 'urn:q', 's': 'urn:p', 'r': 'urn:pp'}
 CANON_PREFIX = {'urn:d': '', 'urn:p': 'p', 'urn:q': 'q', 'urn:pp': 'r'}
+# namespace names that begin with a number, most of them not in canonical lexical form (only with tree_specs(num_uris=True))
+NUM_URIS = ('007/agents', '1e3/units', '01.50/pricing', '.5x', '1.', '00', '1E5x', '0x10', '2001/records', '1.0', '0.9/feed')
+for _i, _u in enumerate(NUM_URIS, 1):
+    PREFIX_URI['n%d' % _i] = _u
+    CANON_PREFIX[_u] = 'n%d' % _i
 # what a parser / lxml.xpath gets to resolve prefixes used in generated paths (no default namespace)
 PATH_NAMESPACES = {'p': 'urn:p', 'q': 'urn:q'}
 
@@ -296,7 +301,7 @@ _DECLS_PP = _DECLS + (('r',), ('p', 'r'), ('r', 'q'))
 
 @st.composite
 def tree_specs(draw, max_elems=12, max_depth=4, max_attrs=3, ns=True, doc_misc=True,
-               pi_targets=PI_TARGETS, misc_weight=3, elem_locals=ELEM_LOCALS, min_elems=1, prefix_uris=False):
+               pi_targets=PI_TARGETS, misc_weight=3, elem_locals=ELEM_LOCALS, min_elems=1, prefix_uris=False, num_uris=False):
     """Normalised TreeSpec.  Small name pools on purpose (nested/sibling same names are the norm)."""
     budget = [draw(st.integers(min(min_elems, max_elems), max_elems)) - 1]
     misc = _misc(pi_targets)
@@ -304,6 +309,10 @@ def tree_specs(draw, max_elems=12, max_depth=4, max_attrs=3, ns=True, doc_misc=T
     elem_ns = st.sampled_from(_ELEM_NS_PP if prefix_uris else _ELEM_NS) if ns else st.none()
     attr_ns = st.sampled_from(_ATTR_NS_PP if prefix_uris else _ATTR_NS) if ns else st.none()
     decls = st.sampled_from(_DECLS_PP if prefix_uris else _DECLS) if ns else st.just(())
+    if ns and num_uris:
+        elem_ns = st.one_of(elem_ns, elem_ns, st.sampled_from(NUM_URIS))
+        attr_ns = st.one_of(attr_ns, attr_ns, attr_ns, st.sampled_from(NUM_URIS))
+        decls = st.one_of(decls, decls, decls, st.sampled_from(['n%d' % i for i in range(1, len(NUM_URIS) + 1)]).map(lambda p: (p,)))
     attr = st.tuples(attr_ns, st.sampled_from(ATTR_LOCALS), st.sampled_from(ATTR_VALUES)).map(list)
 
     def elem(depth):
